@@ -26,6 +26,7 @@ DEFAULTS = {
     'rateAlwaysCmp': 'ge', 'drawKeepCmp': 'le', 'fileAboveCmp': 'gt', 'windowStartCmp': 'le', 'windowEndCmp': 'le',
     'opOutputAlias': '_tape_recorder_operation', 'aboveLimitContent': 'above interception limit', 'defaultFileLimit': 500,
     's3RateAlwaysCmp': 'ge', 's3DrawKeepCmp': 'le', 'disableDiscards': True, 'fileStemSplitext': True,
+    'operatorCatchesTypeError': True, 'patternGuardsNonString': True,
     's3FullKey': 'tape_recorder_recordings/{key_prefix}full/{id}', 's3MetadataKey': 'tape_recorder_recordings/{key_prefix}metadata/{id}',
 }
 
@@ -104,6 +105,41 @@ def extract(repo):
     except Exception:
         table = None
     put('operatorTable', table)
+    # -- tape_cassette.py: is the comparison of `_operator_filter` guarded against TypeError, and the pattern branch of
+    #    `_match_metadata_value` against non-string recorded values? (F8) ------------------------------------------------
+    catches, guards = None, None
+    try:
+        tc = parse(repo, 'playback/tape_cassette.py')
+        fn = find_func(tc, '_operator_filter')
+        cmps_in_try = False
+        for n in ast.walk(fn):
+            if isinstance(n, ast.Try):
+                names = []
+                for h in n.handlers:
+                    t = h.type
+                    names += [t.id] if isinstance(t, ast.Name) else [e.id for e in t.elts if isinstance(e, ast.Name)] if isinstance(t, ast.Tuple) else ['*'] if t is None else []
+                has_cmp = any(isinstance(x, ast.Compare) and any(is_name(y, 'recorded_value') for y in ast.walk(x)) for b in n.body for x in ast.walk(b))
+                if has_cmp and any(nm in ('TypeError', 'Exception', 'BaseException', '*') for nm in names):
+                    cmps_in_try = True
+        any_cmp = any(isinstance(x, ast.Compare) and any(is_name(y, 'recorded_value') for y in ast.walk(x)) for x in ast.walk(fn))
+        if any_cmp:
+            catches = cmps_in_try
+        fn = find_func(tc, '_match_metadata_value')
+        for n in ast.walk(fn):
+            if isinstance(n, ast.If) and isinstance(n.test, ast.Call) and is_name(n.test.func, 'isinstance') \
+                    and len(n.test.args) == 2 and is_name(n.test.args[0], 'match_value') and is_name(n.test.args[1], 'str'):
+                rets = [r for b in n.body for r in ast.walk(b) if isinstance(r, ast.Return)]
+                if len(rets) == 1:
+                    v = rets[0].value
+                    if isinstance(v, ast.BoolOp) and isinstance(v.op, ast.And) and isinstance(v.values[0], ast.Call) \
+                            and is_name(v.values[0].func, 'isinstance') and is_name(v.values[0].args[0], 'recorded_value'):
+                        guards = True
+                    elif isinstance(v, ast.Call) and (is_name(v.func, 'fnmatch') or is_attr(v.func, 'fnmatch')):
+                        guards = False
+    except Exception:
+        pass
+    put('operatorCatchesTypeError', catches)
+    put('patternGuardsNonString', guards)
     # -- tape_recorder.py: _should_sample_active_recording --------------------------------------------------------
     rate, draw = None, None
     try:
@@ -337,6 +373,10 @@ def defaultFileLimit : Nat := %d
 /-- s3_tape_cassette.py `_should_sample`: `ratio <op> 1` stores without a draw, else `self._random.random() <op> ratio` -/
 def s3RateAlwaysCmp : Cmp := .%s
 def s3DrawKeepCmp : Cmp := .%s
+/-- tape_cassette.py `_operator_filter`: the comparisons sit in `try … except TypeError` (F8) -/
+def operatorCatchesTypeError : Bool := %s
+/-- tape_cassette.py `_match_metadata_value`: a string filter is matched as `isinstance(recorded_value, str) and fnmatch(…)` (F8) -/
+def patternGuardsNonString : Bool := %s
 /-- tape_recorder.py `disable_recording`: after switching off it calls `self.discard_recording()` (F15) -/
 def disableDiscards : Bool := %s
 /-- file_based_tape_cassette.py `iter_recording_ids`: `os.path.splitext(file_name)[0]` (true, F14) or `file_name.split('.')[0]` -/
@@ -351,6 +391,7 @@ end PlaybackModel.Source
        lean_str(atoms['opOutputAlias']), lean_str(atoms['aboveLimitContent']),
        ', '.join(str(b) for b in atoms['aboveLimitContent'].encode('utf-8')), atoms['defaultFileLimit'],
        atoms['s3RateAlwaysCmp'], atoms['s3DrawKeepCmp'],
+       'true' if atoms['operatorCatchesTypeError'] else 'false', 'true' if atoms['patternGuardsNonString'] else 'false',
        'true' if atoms['disableDiscards'] else 'false', 'true' if atoms['fileStemSplitext'] else 'false',
        lean_str(atoms['s3FullKey']), lean_str(atoms['s3MetadataKey']))
 
